@@ -84,3 +84,68 @@ func c15CrossChunkNames(c *Check, pool *NodePool) {
 		}
 	})
 }
+
+// c15WrappedExternalImports: files that are wrapped in a CommonJS closure (they use module.exports) but contain import
+// statements of external packages: with ESM output those imports are printed at the top level of the chunk, so the local
+// names of all their clauses (default, namespace, named) live in one scope across files. There is no native reference
+// (a file cannot use both), so the expected log is written by hand.
+func c15WrappedExternalImports(c *Check, pool *NodePool) {
+	root := scratchRoot("c15w")
+	defer os.RemoveAll(root)
+	ext := func(n string) map[string]string {
+		return map[string]string{
+			"node_modules/ext-" + n + "/package.json": `{"name":"ext-` + n + `","main":"index.js"}`,
+			"node_modules/ext-" + n + "/index.js":     "exports.tag = '" + n + "-tag'; exports.other = '" + n + "-other'; exports.id = '" + n + "';",
+		}
+	}
+	files := map[string]string{
+		"a.mjs": "import './w1.js'; import './w2.js'; import './w3.js'; import './w4.js'; const tag = 'entry-tag', lib = 'entry-lib', ns = 'entry-ns'; log('entry', tag, lib, ns);\n",
+		"w1.js": "import lib, {tag, other as o} from 'ext-a'; log('w1', lib.id, tag, o); module.exports = 1;\n",
+		"w2.js": "import lib, {tag, other as o} from 'ext-b'; log('w2', lib.id, tag, o); module.exports = 2;\n",
+		"w3.js": "import lib, * as ns from 'ext-c'; import {tag} from 'ext-c'; log('w3', lib.id, ns.tag, tag); module.exports = 3;\n",
+		"w4.js": "import {tag as lib, other as ns} from 'ext-d'; import tag from 'ext-d'; log('w4', lib, ns, tag.id); module.exports = 4;\n",
+	}
+	for _, n := range []string{"a", "b", "c", "d"} {
+		for k, v := range ext(n) {
+			files[k] = v
+		}
+	}
+	want := "\"w1\" \"a\" \"a-tag\" \"a-other\"\n\"w2\" \"b\" \"b-tag\" \"b-other\"\n\"w3\" \"c\" \"c-tag\" \"c-tag\"\n\"w4\" \"d-tag\" \"d-other\" \"d\"\n\"entry\" \"entry-tag\" \"entry-lib\" \"entry-ns\""
+	writeTree(root, files)
+	var cases []graphCase
+	var names []string
+	for _, format := range []api.Format{api.FormatESModule, api.FormatCommonJS} {
+		for _, minify := range []bool{false, true} {
+			r := api.Build(api.BuildOptions{EntryPoints: []string{filepath.Join(root, "a.mjs")}, Bundle: true, Format: format, Write: false, Outdir: filepath.Join(root, "out"), MinifyIdentifiers: minify,
+				External: []string{"ext-a", "ext-b", "ext-c", "ext-d"}, Platform: api.PlatformNode, LogLevel: api.LogLevelSilent})
+			c.Eval(1)
+			name := fmt.Sprintf("format=%d minify-identifiers=%v", format, minify)
+			if len(r.Errors) > 0 || len(r.OutputFiles) != 1 {
+				c.Violation("c15-wrapped-external-build:"+name, map[string]interface{}{"kind": "bundle failed", "config": name, "errors": jsonStr(r.Errors)})
+				continue
+			}
+			out := map[string]string{}
+			for k, v := range files {
+				if strings.HasPrefix(k, "node_modules/") {
+					out[k] = v
+				}
+			}
+			entry, how := "bundle.mjs", "import"
+			if format == api.FormatCommonJS {
+				entry, how = "bundle.cjs", "require"
+			}
+			out[entry] = string(r.OutputFiles[0].Contents)
+			c.Distinct(out[entry])
+			cases = append(cases, graphCase{Files: out, Entry: entry, How: how})
+			names = append(names, name)
+		}
+	}
+	res := nodeGraph(pool.Get(0), cases)
+	for k := range res {
+		got := strings.Join(res[k].Log, "\n")
+		if got != want || res[k].Err != nil {
+			c.Violation("c15-wrapped-external:"+names[k], map[string]interface{}{"kind": "external imports of CommonJS-wrapped files bind to the wrong names", "config": names[k], "expected_log": want, "bundle": res[k].String(), "bundle_code": trunc(cases[k].Files[cases[k].Entry], 5000)})
+		}
+		c.Sub("wrapped_external_import_cases", 1)
+	}
+}
